@@ -35,3 +35,38 @@ M("exp-circular-ref-not-denormalized-when-abs-off", "expander.go",
 M("exp-memo-marks-noncycle", "schema_loader.go",
   "	foundCycle = swag.ContainsStrings(parentRefs, normalizedRef) // normalized windows url's are lower cased\n	if foundCycle {",
   "	foundCycle = swag.ContainsStrings(parentRefs, normalizedRef) // normalized windows url's are lower cased\n	if foundCycle || len(parentRefs) > 3 {", ["C03"])
+
+# ---- C08 error handling -----------------------------------------------------
+M("err-load-swallow", "schema_loader.go",
+  "	b, err := r.context.loadDoc(normalized)\n	if err != nil {\n		return nil, url.URL{}, false, err\n	}",
+  "	b, err := r.context.loadDoc(normalized)\n	if err != nil {\n		return map[string]interface{}{}, toFetch, false, nil\n	}", ["C08"])
+M("err-defs-continue-always", "expander.go",
+  "			def, err := expandSchema(definition, parentRefs, resolver, specBasePath)\n			if resolver.shouldStopOnError(err) {",
+  "			def, err := expandSchema(definition, parentRefs, resolver, specBasePath)\n			if false && resolver.shouldStopOnError(err) {", ["C08"])
+M("err-properties-swallow", "expander.go",
+  "		t, err := expandSchema(target.Properties[k], parentRefs, resolver, basePath)\n		if resolver.shouldStopOnError(err) {",
+  "		t, err := expandSchema(target.Properties[k], parentRefs, resolver, basePath)\n		if false && resolver.shouldStopOnError(err) {", ["C08"])
+M("err-responses-swallow", "expander.go",
+  "			if err := expandParameterOrResponse(&response, resolver, basePath); resolver.shouldStopOnError(err) {\n				return err\n			}\n			responses.StatusCodeResponses[code] = response",
+  "			if err := expandParameterOrResponse(&response, resolver, basePath); false && resolver.shouldStopOnError(err) {\n				return err\n			}\n			responses.StatusCodeResponses[code] = response", ["C08"])
+M("err-continue-drops-guard", "expander.go",
+  "	if t == nil || err != nil {", "	if t == nil {", ["C08"])
+M("err-pointer-error-swallowed", "schema_loader.go",
+  "		res, _, err = ref.GetPointer().Get(data)\n		if err != nil {\n			return err\n		}",
+  "		res, _, err = ref.GetPointer().Get(data)\n		if err != nil {\n			return nil\n		}", ["C08"])
+M("err-continue-stops-allof", "expander.go",
+  "		t, err := expandSchema(target.AllOf[i], parentRefs, resolver, basePath)\n		if resolver.shouldStopOnError(err) {",
+  "		t, err := expandSchema(target.AllOf[i], parentRefs, resolver, basePath)\n		if err != nil {", ["C08"])
+
+# ---- C09 skip schemas -------------------------------------------------------
+M("skip-rebase-current-base", "expander.go",
+  "		target.Ref = denormalizeRef(&rebasedRef, resolver.context.basePath, resolver.context.rootID)\n\n		return &target, nil",
+  "		target.Ref = denormalizeRef(&rebasedRef, basePath, resolver.context.rootID)\n\n		return &target, nil", ["C09"])
+M("skip-no-nested-walk", "expander.go",
+  "	s, err := expandSchema(*sch, parentRefs, resolver, basePath)\n	if resolver.shouldStopOnError(err) {\n		return err\n	}\n\n	if s != nil { // guard",
+  "	if resolver.options.SkipSchemas && sch.Ref.String() == \"\" {\n		return nil\n	}\n	s, err := expandSchema(*sch, parentRefs, resolver, basePath)\n	if resolver.shouldStopOnError(err) {\n		return err\n	}\n\n	if s != nil { // guard", ["C09"])
+M("skip-expands-definitions", "expander.go",
+  "	if !options.SkipSchemas {\n		for key, definition := range spec.Definitions {", "	if true {\n		for key, definition := range spec.Definitions {", ["C09"])
+M("skip-keeps-absolute", "expander.go",
+  "		target.Ref = denormalizeRef(&rebasedRef, resolver.context.basePath, resolver.context.rootID)\n\n		return &target, nil",
+  "		target.Ref = rebasedRef\n\n		return &target, nil", ["C09"])
